@@ -1,6 +1,8 @@
 import OV.Model.C01SExp
 import OV.Model.C01Sem
 import OV.Model.C01Export
+import OV.Model.C01Eager
+import OV.Model.C01Separate
 import OV.Drivers.Loop
 /-! Line-protocol driver for C01 and C02 (one model).
     (`<func-sexp>` may be wrapped: `(withenv (closure (k <lit>)*) (globals (k <lit>)*) <func-sexp>)`)
@@ -14,7 +16,13 @@ import OV.Drivers.Loop
                                   `none_lit` / `none_brk` / `none_lit_brk` / `none_other` (outside every fragment, and why):
                                   the refinement theorem that covers it
     `C01 stable <func-sexp>`   → whether every liveness fixpoint of the model was reached within its fuel
-                                  (hypothesis of `liveness_sound`) -/
+                                  (hypothesis of `liveness_sound`)
+    `C01 eager (call (sig (NAME in|attr VARIADIC REQUIRED HASDEFAULT)*) (py (NAME <val>|_)*) (args <val>*)
+                (kw (NAME <val>)*) ALLOWEXTRA RETBOOL)` → the eager calling convention (`OV/Model/C01Eager.lean`):
+                                  `sigmatch=… nodup=… tag=… eager=… out=… python=…`
+    `C01 separate (call (sig (NAME in|attr VARIADIC REQUIRED HASDEFAULT)*) (args TOKEN*) (kw (NAME TOKEN)*) FILL ALLOWKW ALLOWARGS)`
+                                  → `separate_input_attributes_from_arguments` (`OV/Model/C01Separate.lean`):
+                                  `ok (ins TOKEN|_ …) (attrs (NAME TOKEN)…) spec=<same|differs|n/a>` | `err TypeError:<kind>` -/
 namespace OV.Drivers.C01
 open OV.C01
 
@@ -78,8 +86,141 @@ def hasBrkBlock : List Stmt → Bool
   | st :: ss => hasBrkStmt st || hasBrkBlock ss
 end
 
+namespace Eager
+open OV.C01.Eager
+
+mutual
+def decArg : SExp → Option (Arg String)
+  | .atom "none" => some .none
+  | .atom _ => none
+  | .list xs => decArgTagged xs
+def decArgTagged : List SExp → Option (Arg String)
+  | [.atom "arr", .atom v] => some (.arr v)
+  | [.atom "ten", .atom v] => some (.ten v)
+  | [.atom "bool", .atom b] => some (.bool (decBool b))
+  | [.atom "flt", .atom x] => some (.flt x)
+  | [.atom "int", .atom i] => i.toInt?.map .int
+  | [.atom "other", .atom t] => some (.other t)
+  | .atom "list" :: xs => (decArgs xs).map .list
+  | .atom "tuple" :: xs => (decArgs xs).map .tuple
+  | _ => none
+def decArgs : List SExp → Option (List (Arg String))
+  | [] => some []
+  | x :: xs => match decArg x, decArgs xs with
+    | some a, some as => some (a :: as)
+    | _, _ => none
+end
+
+mutual
+def encArg : Arg String → SExp
+  | .arr v => .list [.atom "arr", .atom v]
+  | .ten v => .list [.atom "ten", .atom v]
+  | .bool b => .list [.atom "bool", .atom (if b then "1" else "0")]
+  | .flt x => .list [.atom "flt", .atom x]
+  | .int i => .list [.atom "int", .atom (toString i)]
+  | .none => .atom "none"
+  | .list xs => .list (.atom "list" :: encArgs xs)
+  | .tuple xs => .list (.atom "tuple" :: encArgs xs)
+  | .other t => .list [.atom "other", .atom t]
+def encArgs : List (Arg String) → List SExp
+  | [] => []
+  | x :: xs => encArg x :: encArgs xs
+end
+
+def mkS : Mk String :=
+  ⟨fun b => "np:bool:" ++ (if b then "True" else "False"), fun x => "np:float64:" ++ x, fun i => "np:int64:" ++ toString i⟩
+
+def showE : OV.C01.Eager.Err → String
+  | .unexpectedKw => "TypeError:unexpectedKw" | .missing => "TypeError:missing" | .badInput => "TypeError:badInput"
+  | .badOutput => "TypeError:badOutput" | .tooMany => "TypeError:tooMany" | .badKw => "TypeError:badKw"
+
+def encEnv (env : List (Name × Arg String)) : SExp :=
+  .list (.atom "env" :: env.map (fun e => .list [.atom e.1, encArg e.2]))
+
+def decSigP : SExp → Option SigParam
+  | .list [.atom n, .atom k, .atom v, .atom r, .atom d] =>
+    some ⟨n, k = "in", decBool v, decBool r, decBool d⟩
+  | _ => none
+
+def decPyP : SExp → Option (PyParam (Arg String))
+  | .list [.atom n, .atom "_"] => some ⟨n, none⟩
+  | .list [.atom n, v] => (decArg v).map (fun a => ⟨n, some a⟩)
+  | _ => none
+
+def decKw : SExp → Option (Name × Arg String)
+  | .list [.atom n, v] => (decArg v).map (fun a => (n, a))
+  | _ => none
+
+/-- values of the tensor parameters of an environment in parameter order (what the recorder of the tie returns) -/
+def inputVals : List SigParam → List (Name × Arg String) → List (Arg String)
+  | p :: ps, (_, a) :: r => if p.isInput then a :: inputVals ps r else inputVals ps r
+  | _, _ => []
+
+def handleEager : SExp → String
+  | .list [.atom "call", .list (.atom "sig" :: sps), .list (.atom "py" :: pys), .list (.atom "args" :: as),
+           .list (.atom "kw" :: kws), .atom allow, .atom retb] =>
+    match sps.mapM decSigP, pys.mapM decPyP, decArgs as, kws.mapM decKw with
+    | some ps, some qs, some args, some kw =>
+      let ae := decBool allow
+      let tag := match tagArguments false ae (fun _ => Arg.none) ps args kw with
+        | .error e => "err:" ++ showE e
+        | .ok (ta, tk) => "ok:" ++ toString ta.length ++ ":" ++ " ".intercalate (tk.map (fun (e : Name × Arg String × SigParam) => e.1))
+      let call := eagerCall mkS ae ps qs args kw
+      let eager := match call with
+        | .error e => "err:" ++ showE e
+        | .ok (env, flag) => "ok:" ++ (if flag then "1" else "0") ++ ":" ++ (encEnv env).show
+      let out := match call with
+        | .error _ => "-"
+        | .ok (env, flag) =>
+          let r : Arg String := .tuple (inputVals ps env ++ (if decBool retb then [Arg.bool true] else []))
+          match finish flag r with
+          | .error e => "err:" ++ showE e
+          | .ok v => "ok:" ++ (encArg v).show
+      let py := match pyBind qs args kw with
+        | .error e => "err:" ++ showE e
+        | .ok env =>
+          match adaptEnv mkS ps env with
+          | .error e => "ok-then-err:" ++ showE e
+          | .ok env' => "ok:" ++ (if flagEnv ps env then "1" else "0") ++ ":" ++ (encEnv env').show
+      s!"sigmatch={sigMatch ps qs} nodup={nodupP ps} tag={tag} | eager={eager} | out={out} | python={py}"
+    | _, _, _, _ => "bad-input"
+  | _ => "bad-input"
+
+def handleSeparate : SExp → String
+  | .list [.atom "call", .list (.atom "sig" :: sps), .list (.atom "args" :: as), .list (.atom "kw" :: kws),
+           .atom fill, .atom akw, .atom aargs] =>
+    let kwd := kws.mapM (fun k => match k with | .list [.atom n, .atom v] => some (n, v) | _ => none)
+    match sps.mapM decSigP, atoms as, kwd with
+    | some ps, some args, some kw =>
+      let dflt := fun (p : SigParam) => "default:" ++ p.name
+      let showIns := fun (ins : List (Option String)) => " ".intercalate (ins.map (fun o => o.getD "_"))
+      let showAttrs := fun (ats : List (Name × String)) => " ".intercalate (ats.map (fun e => "(" ++ e.1 ++ " " ++ e.2 ++ ")"))
+      match separate (decBool fill) (decBool akw) (decBool aargs) dflt ps args kw with
+      | .error e => "err " ++ showE e
+      | .ok (ins, ats) =>
+        -- the closed form of `separate_inputs_attributes_spec`, where its hypotheses hold
+        let spec :=
+          if noVariadic ps && requiredGiven kw args 0 ps && !decBool fill && decBool aargs
+              && (!(kw.any (fun e => !(ps.any (fun p => p.name = e.1)))) || decBool akw) then
+            (if showIns (trimNone (inputSlots kw args 0 ps)) = showIns ins
+                && showAttrs (attrSlots kw args 0 ps) = showAttrs ats then "same" else "differs")
+          else "n/a"
+        "ok (ins " ++ showIns ins ++ ") (attrs " ++ showAttrs ats ++ ") spec=" ++ spec
+    | _, _, _ => "bad-input"
+  | _ => "bad-input"
+
+end Eager
+
 def handle (args : List String) : String :=
   match args with
+  | "eager" :: rest =>
+    match parseSExp (" ".intercalate rest) with
+    | none => "bad-input"
+    | some e => Eager.handleEager e
+  | "separate" :: rest =>
+    match parseSExp (" ".intercalate rest) with
+    | none => "bad-input"
+    | some e => Eager.handleSeparate e
   | "convert" :: rest =>
     match parseSExp (" ".intercalate rest) with
     | none => "bad-input"
